@@ -21,6 +21,7 @@ fn lt(a: &[u8], b: &[u8]) -> bool {
 }
 
 //@ harness: c05_key_order_ci_ac_akc
+//@ serves: C09
 //@ tier: quick
 //@ timeout: 900
 //@ mem: 12
@@ -59,6 +60,7 @@ fn c05_key_order_ci_ac_akc() {
 }
 
 //@ harness: c05_key_akc_kind_separation
+//@ serves: C09
 //@ tier: quick
 //@ timeout: 900
 //@ mem: 12
